@@ -1508,6 +1508,8 @@ class Interp:
     def call_external(self, name: str, args, kwargs, st: State, node) -> list[Out]:
         short = name.split(".")[-1]
         if name.startswith("builtins."):
+            if short == "staticmethod" and len(args) == 1 and isinstance(args[0], FuncV):
+                return self.val(st, FuncV(args[0].func))   # class-level alias `name = staticmethod(function)`
             if short == "len" and len(args) == 1:
                 v = args[0]
                 if isinstance(v, SeqV):
